@@ -64,3 +64,18 @@ Proof. vm_compute. reflexivity. Qed.
 Lemma gen_optout_masks :
   optout_mask_aggr_next = 1 /\ optout_mask_aggr_wild = 1 /\ optout_mask_exact = 1 /\ optout_mask_cut = 1.
 Proof. vm_compute. repeat split; reflexivity. Qed.
+
+(* fix 130ba3b is in the tree: the repaired tests are present in the three exact verifiers *)
+Lemma gen_fix_nameerror_nsec :
+  fixmark_nameerror_nsec = src ["nsecAncestorCut("; "ce == "".""" ]%string.
+Proof. vm_compute. reflexivity. Qed.
+Lemma gen_fix_nodata_nsec :
+  fixmark_nodata_nsec = src ["q.Qtype == dns.TypeDS && typesSet(nsec.TypeBitMap, dns.TypeSOA)";
+                             "q.Qtype != dns.TypeDS && typesSet(nsec.TypeBitMap, dns.TypeNS)";
+                             "q.Qtype == dns.TypeDS && typesSet(nsec.TypeBitMap, dns.TypeSOA)";
+                             "q.Qtype != dns.TypeDS && typesSet(nsec.TypeBitMap, dns.TypeNS)"]%string.
+Proof. vm_compute. reflexivity. Qed.
+Lemma gen_fix_nodata_nsec3 :
+  fixmark_nodata_nsec3 = src ["q.Qtype == dns.TypeDS && typesSet(types, dns.TypeSOA)";
+                              "q.Qtype != dns.TypeDS && typesSet(types, dns.TypeNS)"]%string.
+Proof. vm_compute. reflexivity. Qed.
